@@ -235,7 +235,9 @@ def reclassify_unknown_callees(res, text, tag):
         # loop contracts are attached by ordinal: when a function's number of loops differs from what
         # the contracts were written for they may sit on the wrong loop — a failure there is no verdict
         now = unit_loop_counts(text)
-        changed = [q for q, n_ in now.items() if q in loops0 and loops0[q] != n_]
+        # (a function that has NO loop left carries no loop contract any more — they are dropped — so its
+        #  postcondition decides as usual)
+        changed = [q for q, n_ in now.items() if q in loops0 and loops0[q] != n_ and n_ > 0]
         moved_ = [f for f in res["failures"] if f["function"] in changed]
         if moved_:
             res["failures"] = [f for f in res["failures"] if f not in moved_]
